@@ -235,9 +235,11 @@ func runFaultsOpts(c *ECase, strict, files bool) (st eStats, err error) {
 	dbgFS = fs
 	ctl := &callCtl{strict: strict, fs: fs, grace: 25 * time.Second, bound: 0}
 	if strict {
-		ctl.grace, ctl.bound = 3*time.Second, 12*time.Second
+		// the injected failures must be able to outlast a call that gives up by itself, so that
+		// the *next* call still meets them: Transaction.Commit retries for 3 s before it returns
+		ctl.grace, ctl.bound = 5*time.Second, 12*time.Second
 		if os.Getenv("VERIF_C09_FAST") != "" { // while shrinking: shorter bounds (the result is re-checked with the full ones)
-			ctl.grace, ctl.bound = 1*time.Second, 4*time.Second
+			ctl.grace, ctl.bound = 3500*time.Millisecond, 4*time.Second
 		}
 	}
 	defer func() {
